@@ -1,7 +1,7 @@
 (* Props_C01.v — the property theorems for C01 and nothing else.
    C01: "Point reads return the latest write, whatever the tree did in between". *)
 From Coq Require Import NArith List.
-From Blue Require Import Gen.Const_Lsm Lsm.Model Lsm.LoadProofs Lsm.Ordered Lsm.CompactProofs Lsm.GcProofs Lsm.WfProofs Lsm.History.
+From Blue Require Import Gen.Const_Lsm Lsm.Model Lsm.LoadProofs Lsm.Ordered Lsm.CompactProofs Lsm.GcProofs Lsm.WfProofs Lsm.History Lsm.RecoverImpossible.
 Import ListNotations.
 Open Scope N_scope.
 
@@ -61,6 +61,23 @@ Qed.
    by the sequence counter, memtable newer than files) *)
 Theorem C01_invariant_reachable : forall n ops, all_accepted (init_at n) ops = true -> Inv (run (init_at n) ops).
 Proof. exact run_inv. Qed.
+
+(* Known finding K2, root cause (why reopen is an INPUT of the history theorem and not a function):
+   recovery sees only the metadata of the files.  There are two stores whose files have pairwise
+   identical metadata (id, first key, last key, smallest and biggest timestamp, size), both with a
+   well-formed Ordered arrangement, such that NO arrangement of the files into levels is Ordered for
+   both contents.  Hence recover.rs - or any replacement working from the same metadata - returns
+   stale point reads on at least one of them. *)
+Theorem C01_recovery_from_metadata_refuted :
+  (meta fA = meta fA' /\ meta fB = meta fB') /\
+  (wf_versionb vAB = true /\ orderedb (mkS [] vAB 9) = true /\
+   wf_versionb vBA' = true /\ orderedb (mkS [] vBA' 9) = true) /\
+  (forall v n n', only_AB (flat v) -> In fA (flat v) -> In fB (flat v) ->
+     ~ (Ordered (mkS [] v n) /\ Ordered (mkS [] (swap_contents v) n'))).
+Proof.
+  exact (conj (conj (proj1 same_metadata) (proj1 (proj2 same_metadata)))
+              (conj each_has_a_correct_arrangement no_arrangement_fits_both)).
+Qed.
 
 (* ---- non-vacuity: a concrete history with two flushes, a merging compaction whose output
    carries a tombstone over an older put, a trivial move and a reopen is accepted ---- *)
